@@ -93,11 +93,19 @@ def explain_unsat_next(op_signal, intervals):
     return explain_next(op_signal, intervals)
 
 
+def explain_edge(op_signal, intervals):
+    # rise/fall at t depend on the operand at t-1 and t
+    op_intervals = []
+    for begin, end in intervals:
+        op_intervals.append([max(begin - 1, 0), end])
+    return op_intervals
+
+
 def explain_rise(op_signal, intervals):
-    return explain_unary(op_signal, intervals)
+    return explain_edge(op_signal, intervals)
 
 def explain_fall(op_signal, intervals):
-    return explain_unary(op_signal, intervals)
+    return explain_edge(op_signal, intervals)
 
 
 def explain_sat_prev(op_signal, intervals):
